@@ -3877,4 +3877,806 @@ theorem withStdlib_unlocated (fuel : Nat) (withHost : Bool) : (withStdlib fuel w
 
 end ProgLoc
 
+/-! ## every element of the data carries a position (`Datum.HL`) -/
+
+namespace HLoc
+
+theorem hl_loc {d : Datum} (h : d.HL) : d.loc ≠ none := by
+  cases d <;> simp only [Datum.HL] at h <;> simp only [Datum.loc] <;> first | exact h | exact h.1
+
+theorem hl_tl {d : Datum} (h : d.HL) : d.TL := by
+  cases d <;> simp only [Datum.HL] at h <;> simp only [Datum.TL] <;> first | exact h | exact h.2 | trivial
+
+theorem hls_iff {xs : List Datum} : Datum.HLs xs ↔ ∀ x ∈ xs, x.HL := by
+  induction xs with
+  | nil => simp [Datum.HLs]
+  | cons x xs ih => simp [Datum.HLs, ih]
+
+/-- a rest of a list given a position is head-located -/
+theorem tl_withLoc {d : Datum} (h : d.TL) {l : Loc} (hl : l ≠ none) : (d.withLoc l).HL := by
+  cases d <;> simp only [Datum.TL] at h <;> simp only [Datum.withLoc, Datum.HL] <;>
+    first | exact hl | exact ⟨hl, h⟩ | exact ⟨hl, h.2⟩
+
+/-- the elements of a list rest: cars and improper tail -/
+theorem tl_spine : ∀ {d : Datum}, d.TL → (∀ x ∈ d.spine.1, x.HL) ∧ (∀ t, d.spine.2 = some t → t.HL)
+  | .pair a d l, h => by
+    simp only [Datum.TL] at h
+    have ih := tl_spine h.2
+    simp only [Datum.spine]
+    refine ⟨fun x hx => ?_, ih.2⟩
+    rcases List.mem_cons.1 hx with rfl | hx
+    · exact h.1
+    · exact ih.1 x hx
+  | .nil _, _ => by simp [Datum.spine]
+  | .prim p l, h => by simp only [Datum.TL] at h; simp [Datum.spine, Datum.HL, h]
+  | .sym p l, h => by simp only [Datum.TL] at h; simp [Datum.spine, Datum.HL, h]
+  | .vec xs l, h => by simp only [Datum.TL] at h; simp [Datum.spine, Datum.HL, h]
+
+theorem tl_ofList_none : ∀ {xs : List Datum}, (∀ x ∈ xs, x.HL) → (Datum.ofList none xs).TL
+  | [], _ => by simp [Datum.ofList, Datum.TL]
+  | x :: xs, h => by
+    simp only [Datum.ofList, Datum.TL]
+    exact ⟨h x (by simp), tl_ofList_none (fun y hy => h y (by simp [hy]))⟩
+
+theorem hl_ofList {l : Loc} (hl : l ≠ none) {xs : List Datum} (h : ∀ x ∈ xs, x.HL) :
+    (Datum.ofList l xs).HL := by
+  cases xs with
+  | nil => simpa [Datum.ofList, Datum.HL] using hl
+  | cons x xs =>
+    simp only [Datum.ofList, Datum.HL]
+    exact ⟨hl, h x (by simp), tl_ofList_none (fun y hy => h y (by simp [hy]))⟩
+
+/-! ### macro expansion keeps data head-located -/
+
+open Macro
+
+/-- every datum bound in the substitution table satisfies `P` -/
+def SubstAll (P : Datum → Prop) (σ : Subst) : Prop :=
+  ∀ e ∈ σ, P e.2.1 ∧ ∀ m ∈ e.2.2, P m
+
+variable {P : Datum → Prop}
+
+theorem SubstAll.nil : SubstAll P [] := by simp [SubstAll]
+
+theorem SubstAll.insert {σ : Subst} (h : SubstAll P σ) (v : String) {d : Datum} (hd : P d) :
+    SubstAll P (σ.insert v (d, [])) := by
+  induction σ with
+  | nil => simp [Subst.insert, SubstAll, hd]
+  | cons e rest ih =>
+    obtain ⟨k, y⟩ := e
+    simp only [Subst.insert]
+    have hr : SubstAll P rest := fun e he => h e (List.mem_cons_of_mem _ he)
+    split
+    · intro e he
+      rcases List.mem_cons.1 he with rfl | he
+      · simp [hd]
+      · exact hr e he
+    · intro e he
+      rcases List.mem_cons.1 he with rfl | he
+      · exact h _ (List.mem_cons_self ..)
+      · exact ih hr e he
+
+theorem SubstAll.push {σ σ' : Subst} (h : SubstAll P σ) {v : String} {d : Datum} (hd : P d)
+    (hp : σ.push? v d = some σ') : SubstAll P σ' := by
+  induction σ generalizing σ' with
+  | nil => simp [Subst.push?] at hp
+  | cons e rest ih =>
+    obtain ⟨k, f, more⟩ := e
+    have hr : SubstAll P rest := fun e he => h e (List.mem_cons_of_mem _ he)
+    have h0 := h _ (List.mem_cons_self ..)
+    simp only [Subst.push?] at hp
+    split at hp
+    · cases hp
+      intro e he
+      rcases List.mem_cons.1 he with rfl | he
+      · refine ⟨h0.1, fun m hm => ?_⟩
+        rcases List.mem_append.1 hm with hm | hm
+        · exact h0.2 m hm
+        · simp only [List.mem_singleton] at hm; subst hm; exact hd
+      · exact hr e he
+    · cases hq : Subst.push? rest v d with
+      | none => simp [hq] at hp
+      | some r =>
+        simp only [hq, Option.map_some, Option.some.injEq] at hp
+        subst hp
+        intro e he
+        rcases List.mem_cons.1 he with rfl | he
+        · exact h0
+        · exact ih hr hq e he
+
+theorem SubstAll.pushAll {τ : Subst} (hτ : SubstAll P τ) :
+    ∀ {acc : Option Subst} {σ' : Subst}, (∀ s, acc = some s → SubstAll P s) →
+      τ.foldl (fun acc (x : String × Datum × List Datum) =>
+        acc.bind (fun s => Subst.push? s x.1 x.2.1)) acc = some σ' → SubstAll P σ' := by
+  induction τ with
+  | nil => intro acc σ' ha h; exact ha _ h
+  | cons e rest ih =>
+    intro acc σ' ha h
+    simp only [List.foldl_cons] at h
+    refine ih (fun e he => hτ e (List.mem_cons_of_mem _ he)) ?_ h
+    intro s hs
+    cases acc with
+    | none => simp at hs
+    | some a =>
+      simp only [Option.bind_some] at hs
+      exact (ha a rfl).push (hτ e (List.mem_cons_self ..)).1 hs
+
+theorem SubstAll.get {σ : Subst} (h : SubstAll P σ) {v : String} {x : Datum × List Datum}
+    (hg : σ.get? v = some x) : P x.1 ∧ ∀ m ∈ x.2, P m := by
+  induction σ with
+  | nil => simp [Subst.get?] at hg
+  | cons e rest ih =>
+    obtain ⟨k, y⟩ := e
+    simp only [Subst.get?] at hg
+    split at hg
+    · cases hg; exact h _ (List.mem_cons_self ..)
+    · exact ih (fun e he => h e (List.mem_cons_of_mem _ he)) hg
+
+/-- what `P` must satisfy for the matcher to keep it: the elements of a list or vector satisfying
+`P` satisfy `P` -/
+structure ElemClosed (P : Datum → Prop) : Prop where
+  spine : ∀ d, d.isListy = true → P d → (∀ x ∈ d.spine.1, P x) ∧ ∀ t, d.spine.2 = some t → P t
+  vec : ∀ xs l, P (.vec xs l) → ∀ x ∈ xs, P x
+
+theorem match_all_aux (hP : ElemClosed P) (lits : List String) : ∀ n,
+    (∀ p d σ r, matchDatum n lits p d σ = .ok r → P d → SubstAll P σ → SubstAll P r.2) ∧
+    (∀ ps ds mm σ r, matchStream n lits ps ds mm σ = .ok r → (∀ d ∈ ds, P d) → SubstAll P σ →
+      SubstAll P r.2) := by
+  intro n
+  induction n with
+  | zero => constructor <;> intros <;> simp_all
+  | succ n ih =>
+    obtain ⟨ihD, ihS⟩ := ih
+    constructor
+    · intro p d σ r h hd hσ
+      cases hp : p.isListy
+      · cases p <;> simp [Pat.isListy] at hp
+        · simp at h; subst h; exact hσ
+        · simp at h; subst h; exact hσ
+        · rw [matchDatum_vec] at h
+          cases d <;> simp at h <;> try (subst h; exact hσ)
+          rename_i ps ds loc
+          exact ihS _ _ _ _ _ h (hP.vec _ _ hd) hσ
+        · rename_i v
+          rw [matchDatum_ident] at h
+          split at h <;> cases h
+          · exact hσ
+          · exact hσ.insert v hd
+        · rw [matchDatum_prim] at h; cases h; exact hσ
+      · cases hdl : d.isListy
+        · rw [matchDatum_listy_atom hp hdl] at h; cases h; exact hσ
+        · rw [matchDatum_listy hp hdl] at h
+          have hsp := hP.spine d hdl hd
+          have h1 := ihS p.spine.1 d.spine.1 none σ
+          split at h
+          · cases h
+          · rename_i σ1 he; cases h
+            exact h1 _ he hsp.1 hσ
+          · rename_i σ1 he
+            have hσ1 := h1 _ he hsp.1 hσ
+            split at h
+            · rename_i lp ld hlp hld
+              exact ihD _ _ _ _ h (hsp.2 _ hld) hσ1
+            · cases h; exact hσ1
+            · cases h; exact hσ1
+    · intro ps ds mm σ r h hds hσ
+      cases ps with
+      | nil => cases ds <;> simp at h <;> subst h <;> exact hσ
+      | cons p ps =>
+        cases ds with
+        | nil =>
+          cases hp : p.isEllipsis
+          · rw [matchStream_cons_nil_ne hp] at h; cases h; exact hσ
+          · cases p <;> simp [Pat.isEllipsis] at hp
+            cases mm with
+            | none => simp at h; subst h; exact hσ
+            | some mp =>
+              rw [matchStream_ell_nil_some] at h
+              exact ihS _ _ _ _ _ h hds hσ
+        | cons d ds =>
+          have hd : P d := hds d (List.mem_cons_self ..)
+          have hds' : ∀ x ∈ ds, P x := fun x hx => hds x (List.mem_cons_of_mem _ hx)
+          cases hp : p.isEllipsis
+          · rw [matchStream_step_ne hp] at h
+            split at h
+            · cases h
+            · rename_i σ1 he; cases h; exact ihD _ _ _ _ he hd hσ
+            · rename_i σ1 he
+              exact ihS _ _ _ _ _ h hds' (ihD _ _ _ _ he hd hσ)
+          · cases p <;> simp [Pat.isEllipsis] at hp
+            cases n with
+            | zero => rw [matchStream_ell_one] at h; cases h
+            | succ n =>
+              cases mm with
+              | none => rw [matchStream_ell_none] at h; cases h
+              | some mp =>
+                rw [matchStream_step_ell] at h
+                split at h
+                · cases h
+                · cases h; exact hσ
+                · rename_i τ he
+                  have hτ := ihD _ _ _ _ he hd SubstAll.nil
+                  split at h
+                  · cases h
+                  · rename_i σ2 hpush
+                    have hσ2 : SubstAll P σ2 :=
+                      SubstAll.pushAll hτ (fun s hs => by cases hs; exact hσ) hpush
+                    split at h
+                    · cases h
+                    · rename_i σ3 he2; cases h; exact ihS _ _ _ _ _ he2 hds' hσ2
+                    · rename_i σ3 he2
+                      exact ihS _ _ _ _ _ h hds' (ihS _ _ _ _ _ he2 hds' hσ2)
+
+theorem hl_elemClosed : ElemClosed Datum.HL where
+  spine := fun d _ hd => tl_spine (hl_tl hd)
+  vec := fun xs l h => by simp only [Datum.HL] at h; exact hls_iff.1 h.2
+
+theorem hl_vec {l : Loc} (hl : l ≠ none) {xs : List Datum} (h : ∀ x ∈ xs, x.HL) : (Datum.vec xs l).HL := by
+  simp only [Datum.HL]; exact ⟨hl, hls_iff.2 h⟩
+
+mutual
+theorem substItem_hl : ∀ (t : Tmpl) (σ : Subst) (i : Nat) (loc : Loc) (d : Datum),
+    SubstAll Datum.HL σ → loc ≠ none → substItem t σ i loc = some d → d.HL
+  | .list es, σ, i, loc, d, hσ, hl, h => by
+    rw [substItem] at h
+    cases hs : substItems es σ i loc with
+    | none => simp [hs] at h
+    | some ds =>
+      simp only [hs, Option.map_some, Option.some.injEq] at h; subst h
+      exact hl_ofList hl (substItems_hl es σ i loc ds hσ hl hs)
+  | .vec es, σ, i, loc, d, hσ, hl, h => by
+    rw [substItem] at h
+    cases hs : substItems es σ i loc with
+    | none => simp [hs] at h
+    | some ds =>
+      simp only [hs, Option.map_some, Option.some.injEq] at h; subst h
+      exact hl_vec hl (substItems_hl es σ i loc ds hσ hl hs)
+  | .ident v, σ, i, loc, d, hσ, hl, h => by
+    rw [substItem] at h
+    split at h
+    · rename_i f more hg
+      split at h
+      · cases h
+      · exact (hσ.get hg).2 d (List.mem_of_getElem? h)
+    · cases h; simpa [Datum.HL] using hl
+  | .prim p, σ, i, loc, d, hσ, hl, h => by
+    rw [substItem] at h; cases h; simpa [Datum.HL] using hl
+theorem substItems_hl : ∀ (es : List (Tmpl × Bool)) (σ : Subst) (i : Nat) (loc : Loc)
+    (ds : List Datum), SubstAll Datum.HL σ → loc ≠ none → substItems es σ i loc = some ds →
+    ∀ x ∈ ds, x.HL
+  | [], σ, i, loc, ds, hσ, hl, h => by
+    rw [substItems] at h; cases h; simp
+  | (t, b) :: rest, σ, i, loc, ds, hσ, hl, h => by
+    rw [substItems] at h
+    split at h
+    · cases h
+    · rename_i d hd
+      cases hs : substItems rest σ i loc with
+      | none => simp [hs] at h
+      | some r =>
+        simp only [hs, Option.map_some, Option.some.injEq] at h; subst h
+        intro x hx
+        rcases List.mem_cons.1 hx with rfl | hx
+        · exact substItem_hl t σ i loc _ hσ hl hd
+        · exact substItems_hl rest σ i loc r hσ hl hs x hx
+end
+
+theorem substItemLoop_hl {t : Tmpl} {σ : Subst} {loc : Loc} (hσ : SubstAll Datum.HL σ)
+    (hl : loc ≠ none) : ∀ (fuel i : Nat) (ds : List Datum),
+    substItemLoop fuel t σ i loc = some ds → ∀ x ∈ ds, x.HL
+  | 0, i, ds, h => by simp [substItemLoop] at h
+  | fuel + 1, i, ds, h => by
+    rw [substItemLoop] at h
+    split at h
+    · cases h; simp
+    · rename_i d hd
+      cases hs : substItemLoop fuel t σ (i + 1) loc with
+      | none => simp [hs] at h
+      | some r =>
+        simp only [hs, Option.map_some, Option.some.injEq] at h; subst h
+        intro x hx
+        rcases List.mem_cons.1 hx with rfl | hx
+        · exact substItem_hl t σ i loc _ hσ hl hd
+        · exact substItemLoop_hl hσ hl fuel (i + 1) r hs x hx
+
+mutual
+theorem subst_hl (fuel : Nat) : ∀ (t : Tmpl) (σ : Subst) (loc : Loc) (d : Datum),
+    SubstAll Datum.HL σ → loc ≠ none → subst fuel t σ loc = some d → d.HL
+  | .list es, σ, loc, d, hσ, hl, h => by
+    rw [subst] at h
+    cases hs : substElems fuel es σ loc with
+    | none => simp [hs] at h
+    | some ds =>
+      simp only [hs, Option.map_some, Option.some.injEq] at h; subst h
+      exact hl_ofList hl (substElems_hl fuel es σ loc ds hσ hl hs)
+  | .vec es, σ, loc, d, hσ, hl, h => by
+    rw [subst] at h
+    cases hs : substElems fuel es σ loc with
+    | none => simp [hs] at h
+    | some ds =>
+      simp only [hs, Option.map_some, Option.some.injEq] at h; subst h
+      exact hl_vec hl (substElems_hl fuel es σ loc ds hσ hl hs)
+  | .ident v, σ, loc, d, hσ, hl, h => by
+    rw [subst] at h
+    split at h
+    · rename_i f more hg; cases h; exact (hσ.get hg).1
+    · cases h; simpa [Datum.HL] using hl
+  | .prim p, σ, loc, d, hσ, hl, h => by
+    rw [subst] at h; cases h; simpa [Datum.HL] using hl
+theorem substElems_hl (fuel : Nat) : ∀ (es : List (Tmpl × Bool)) (σ : Subst) (loc : Loc)
+    (ds : List Datum), SubstAll Datum.HL σ → loc ≠ none → substElems fuel es σ loc = some ds →
+    ∀ x ∈ ds, x.HL
+  | [], σ, loc, ds, hσ, hl, h => by
+    rw [substElems] at h; cases h; simp
+  | (t, true) :: rest, σ, loc, ds, hσ, hl, h => by
+    rw [substElems] at h
+    split at h
+    · rename_i first more r h1 h2 h3
+      cases h
+      intro x hx
+      simp only [List.cons_append, List.mem_cons, List.mem_append] at hx
+      rcases hx with rfl | hx | hx
+      · exact subst_hl fuel t σ loc _ hσ hl h1
+      · exact substItemLoop_hl hσ hl fuel 0 more h2 x hx
+      · exact substElems_hl fuel rest σ loc r hσ hl h3 x hx
+    · cases h
+  | (t, false) :: rest, σ, loc, ds, hσ, hl, h => by
+    rw [substElems] at h
+    split at h
+    · rename_i d r h1 h3
+      cases h
+      intro x hx
+      rcases List.mem_cons.1 hx with rfl | hx
+      · exact subst_hl fuel t σ loc _ hσ hl h1
+      · exact substElems_hl fuel rest σ loc r hσ hl h3 x hx
+    · cases h
+end
+
+/-- the expansion of a head-located macro use is head-located -/
+theorem transformRules_hl {fuel : Nat} {lits : List String} {use : Datum} (hu : use.HL) :
+    ∀ (rules : List (Pat × Tmpl)) (d : Datum), transformRules fuel lits rules use = .ok d → d.HL
+  | [], d, h => by simp [transformRules] at h
+  | (p, t) :: rest, d, h => by
+    rw [transformRules] at h
+    cases hm : matchDatum fuel lits p use [] with
+    | error e => simp [hm, bind, Except.bind] at h
+    | ok r =>
+      obtain ⟨ok, σ⟩ := r
+      simp only [hm, bind, Except.bind] at h
+      have hσ : SubstAll Datum.HL σ :=
+        (match_all_aux hl_elemClosed lits fuel).1 _ _ _ _ hm hu SubstAll.nil
+      split at h
+      · split at h
+        · cases h
+        · split at h
+          · rename_i d' hs
+            simp only [pure, Except.pure, Except.ok.injEq] at h; subst h
+            exact subst_hl fuel t σ use.loc d' hσ (hl_loc hu) hs
+          · cases h
+      · exact transformRules_hl hu rest d h
+
+/-! ### the statement made from a head-located datum has a position -/
+
+open Xform XformLoc
+
+theorem xo_lift {α} {x : Except SErr α} {P : α → Prop} (h : ∀ a, x = .ok a → P a) : XOk (Xform.lift x) P :=
+  fun _ a ha => h a ha
+
+theorem stmt_loc_some : ∀ (n : Nat) (d : Datum), d.HL → XOk (toStatement n d) (fun s => s.loc ≠ none)
+  | 0, d, _ => by rw [toStatement]; exact xo_fail
+  | n + 1, d, hd => by
+    have hl := hl_loc hd
+    unfold toStatement
+    split
+    · exact xo_pure (by simpa [Statement.loc, Expr.loc, Datum.loc] using hl)
+    · exact xo_pure (by simpa [Statement.loc, Expr.loc, Datum.loc] using hl)
+    · exact xo_pure (by simpa [Statement.loc, Expr.loc, Datum.loc] using hl)
+    · exact xo_fail
+    · rename_i a b l
+      simp only [Datum.loc] at hl ⊢
+      refine xo_bind' (P := fun o => ∀ f r, o = some (f, r) → f = a ∧ r = b)
+        (xo_lift fun o ho f r hfr => ?_) fun o ho => ?_
+      · subst hfr
+        obtain ⟨l', hl'⟩ := Macro.popProper_ok ho
+        cases hl'; exact ⟨rfl, rfl⟩
+      · split
+        · exact xo_fail
+        · rename_i first rest
+          obtain ⟨rfl, rfl⟩ := ho first rest rfl
+          simp only [Datum.HL] at hd
+          split
+          · rename_i kw lk
+            split
+            · exact xo_bind fun _ => xo_pure (by simpa [Statement.loc] using hl)
+            split
+            · exact fun env s hs => by
+                show s.loc ≠ none
+                rw [toLibrary_loc _ _ _ env s hs]; exact hl
+            split
+            · exact xo_bind fun _ => xo_pure (by simpa [Statement.loc, Expr.loc] using hl)
+            split
+            · refine xo_bind fun _ => xo_bind fun _ => xo_bind fun _ => xo_bind fun _ => ?_
+              split
+              · exact xo_bind fun _ => xo_bind fun _ => xo_pure (by simpa [Statement.loc, Expr.loc] using hl)
+              · exact xo_bind fun _ => xo_pure (by simpa [Statement.loc, Expr.loc] using hl)
+            split
+            · exact xo_bind fun _ => xo_pure (by simpa [Statement.loc] using hl)
+            split
+            · exact xo_bind fun _ => xo_pure (by simpa [Statement.loc, Expr.loc] using hl)
+            split
+            · refine xo_bind fun target => ?_
+              split
+              · rename_i name tl
+                refine xo_bind fun _ => xo_bind fun _ => xo_pure ?_
+                simp only [Statement.loc, Expr.loc]
+                cases tl <;> simp [hl]
+              · exact xo_fail
+            split
+            · exact xo_bind fun _ => xo_bind fun _ => xo_bind fun _ => xo_bind fun _ =>
+                xo_bind fun _ => xo_pure (by simpa [Statement.loc] using hl)
+            · refine xo_bind fun env => ?_
+              split
+              · rename_i rules hr
+                refine xo_bind' (P := fun expanded => expanded.HL) (xo_lift fun expanded hex => ?_)
+                  fun expanded hexp => stmt_loc_some n expanded hexp
+                exact transformRules_hl (tl_withLoc hd.2.2 hl) _ _ hex
+              · exact xo_bind' (P := fun e => e.loc = l) (toCall_loc _ _ _ _)
+                  fun c hc => xo_pure (by simpa [Statement.loc, hc] using hl)
+          · exact xo_bind' (P := fun e => e.loc = l) (toCall_loc _ _ _ _)
+              fun c hc => xo_pure (by simpa [Statement.loc, hc] using hl)
+
+/-! ### the reader delivers head-located data when every token has a position -/
+
+open Read
+
+def TokLoc (s : PState) : Prop := ∀ t ∈ s.toks, t.loc ≠ none
+def CurOK (s : PState) : Prop := ∀ t, s.cur = some t → t.loc ≠ none ∧ s.loc ≠ none
+
+theorem advance_hl {s s' : PState} (h : advance s = .ok s') (ht : TokLoc s) : TokLoc s' ∧ CurOK s' := by
+  unfold advance at h
+  cases hk : s.toks with
+  | cons t rest =>
+    simp only [hk] at h; cases h
+    have htl : t.loc ≠ none := ht t (by simp [hk])
+    exact ⟨fun x hx => ht x (by simp [hk, hx]), fun x hx => by simp at hx; subst hx; exact ⟨htl, htl⟩⟩
+  | nil =>
+    simp only [hk] at h
+    split at h <;> cases h
+    exact ⟨fun x hx => by simp at hx, fun x hx => by simp at hx⟩
+
+theorem advanceUnwrap_hl {s s' : PState} {t : LToken} (h : advanceUnwrap s = .ok (t, s')) (ht : TokLoc s) :
+    TokLoc s' ∧ CurOK s' ∧ s'.cur = some t := by
+  unfold advanceUnwrap at h
+  cases ha : advance s with
+  | error e => simp [ha, bind, Except.bind] at h
+  | ok s1 =>
+    simp only [ha, bind, Except.bind] at h
+    split at h
+    · rename_i t' ht'
+      simp only [pure, Except.pure, Except.ok.injEq, Prod.mk.injEq] at h
+      obtain ⟨rfl, rfl⟩ := h
+      exact ⟨(advance_hl ha ht).1, (advance_hl ha ht).2, ht'⟩
+    · cases h
+
+theorem tl_snoc : ∀ {acc x : Datum}, acc.TL → x.HL → (snoc acc x).TL
+  | .pair a d l, x, h, hx => by
+    simp only [Datum.TL] at h
+    simp only [snoc, Datum.TL]
+    exact ⟨h.1, tl_snoc h.2 hx⟩
+  | .nil _, x, _, hx => by simp [snoc, Datum.TL, hx]
+  | .prim _ _, x, _, hx => by simp [snoc, Datum.TL, hx]
+  | .sym _ _, x, _, hx => by simp [snoc, Datum.TL, hx]
+  | .vec _ _, x, _, hx => by simp [snoc, Datum.TL, hx]
+
+theorem tl_setTail : ∀ {acc t : Datum}, acc.TL → t.HL → (setTail acc t).TL
+  | .pair a d l, t, h, ht => by
+    simp only [Datum.TL] at h
+    simp only [setTail, Datum.TL]
+    exact ⟨h.1, tl_setTail h.2 ht⟩
+  | .nil _, t, _, ht => by simpa [setTail] using hl_tl ht
+  | .prim _ _, t, _, ht => by simpa [setTail] using hl_tl ht
+  | .sym _ _, t, _, ht => by simpa [setTail] using hl_tl ht
+  | .vec _ _, t, _, ht => by simpa [setTail] using hl_tl ht
+
+theorem hl_mkQuote {l : Loc} (hl : l ≠ none) {inner : Datum} (hi : inner.HL) : (mkQuote l inner).HL := by
+  simp [mkQuote, Datum.HL, Datum.TL, hl, hi]
+
+/-- the invariant for the reader's mutual block at one amount of fuel -/
+structure HAt (fuel : Nat) : Prop where
+  cur : ∀ s od s', currentDatum fuel s = .ok (od, s') → TokLoc s → CurOK s →
+    TokLoc s' ∧ ∀ d, od = some d → d.HL
+  loop : ∀ s listLoc acc dot d s', listLoop fuel s listLoc acc dot = .ok (d, s') → TokLoc s →
+    listLoc ≠ none → acc.TL → TokLoc s' ∧ d.HL
+  rep : ∀ s acc xs s', repeatDatum fuel s acc = .ok (xs, s') → TokLoc s → (∀ x ∈ acc, x.HL) →
+    TokLoc s' ∧ (∀ x ∈ xs, x.HL) ∧ s'.loc ≠ none
+  datum : ∀ s d s', datum fuel s = .ok (d, s') → TokLoc s → CurOK s → TokLoc s' ∧ d.HL
+  quoted : ∀ s d s', parseQuoted fuel s = .ok (d, s') → TokLoc s → CurOK s → TokLoc s' ∧ d.HL
+
+theorem hAt_zero : HAt 0 := by
+  constructor
+  · intro s od s' h; simp [currentDatum] at h
+  · intro s listLoc acc dot d s' h; simp [listLoop] at h
+  · intro s acc xs s' h; simp [repeatDatum] at h
+  · intro s d s' h; simp [Read.datum] at h
+  · intro s d s' h; simp [parseQuoted] at h
+
+section succ
+variable {fuel : Nat} (ih : HAt fuel)
+include ih
+
+theorem h_listOrPair {s d s'} (h : listOrPair fuel s = .ok (d, s')) (ht : TokLoc s) (hl : s.loc ≠ none) :
+    TokLoc s' ∧ d.HL := by
+  unfold listOrPair at h
+  exact ih.loop _ _ _ _ _ _ h ht hl (by simp [Datum.TL])
+
+theorem h_cur {s od s'} (h : currentDatum (fuel + 1) s = .ok (od, s')) (ht : TokLoc s) (hc : CurOK s) :
+    TokLoc s' ∧ ∀ d, od = some d → d.HL := by
+  rw [currentDatum] at h
+  split at h
+  · cases h; exact ⟨ht, by simp⟩
+  · rename_i t hcur
+    obtain ⟨htl, hsl⟩ := hc t hcur
+    have ht0 : TokLoc { s with cur := none } := ht
+    simp only at h
+    split at h
+    · cases h; exact ⟨ht, fun d hd => by cases hd; simpa [Datum.HL] using htl⟩
+    · cases h; exact ⟨ht, fun d hd => by cases hd; simpa [Datum.HL] using htl⟩
+    · cases hl : listOrPair fuel { s with cur := none } with
+      | error e => simp [hl, bind, Except.bind] at h
+      | ok r =>
+        obtain ⟨d, s1⟩ := r
+        simp only [hl, bind, Except.bind, pure, Except.pure, Except.ok.injEq, Prod.mk.injEq] at h
+        obtain ⟨rfl, rfl⟩ := h
+        have := h_listOrPair ih hl ht0 hsl
+        exact ⟨this.1, fun d' hd' => by cases hd'; exact this.2⟩
+    · cases h
+    · cases hl : repeatDatum fuel { s with cur := none } [] with
+      | error e => simp [hl, bind, Except.bind] at h
+      | ok r =>
+        obtain ⟨xs, s1⟩ := r
+        simp only [hl, bind, Except.bind, pure, Except.pure, Except.ok.injEq, Prod.mk.injEq] at h
+        obtain ⟨rfl, rfl⟩ := h
+        have := ih.rep _ _ _ _ hl ht0 (by simp)
+        exact ⟨this.1, fun d' hd' => by cases hd'; exact hl_vec this.2.2 this.2.1⟩
+    · cases ha : advance { s with cur := none } with
+      | error e => simp [ha, bind, Except.bind] at h
+      | ok s1 =>
+        simp only [ha, bind, Except.bind] at h
+        cases hq : parseQuoted fuel s1 with
+        | error e => simp [hq] at h
+        | ok r =>
+          obtain ⟨d, s2⟩ := r
+          simp only [hq, pure, Except.pure, Except.ok.injEq, Prod.mk.injEq] at h
+          obtain ⟨rfl, rfl⟩ := h
+          have h1 := advance_hl ha ht0
+          have := ih.quoted _ _ _ hq h1.1 h1.2
+          exact ⟨this.1, fun d' hd' => by cases hd'; exact this.2⟩
+    · cases h
+
+theorem h_quoted {s d s'} (h : parseQuoted (fuel + 1) s = .ok (d, s')) (ht : TokLoc s) (hc : CurOK s) :
+    TokLoc s' ∧ d.HL := by
+  rw [parseQuoted] at h
+  cases hq : Read.datum fuel s with
+  | error e => simp [hq, bind, Except.bind] at h
+  | ok r =>
+    obtain ⟨inner, s1⟩ := r
+    simp only [hq, bind, Except.bind, pure, Except.pure, Except.ok.injEq, Prod.mk.injEq] at h
+    obtain ⟨rfl, rfl⟩ := h
+    have := ih.datum _ _ _ hq ht hc
+    refine ⟨this.1, hl_mkQuote ?_ this.2⟩
+    -- `datum` succeeded, so there was a current token
+    cases hcur : s.cur with
+    | none =>
+      cases fuel with
+      | zero => simp [Read.datum] at hq
+      | succ n => rw [Read.datum] at hq; simp [hcur] at hq
+    | some t => exact (hc t hcur).2
+
+theorem h_datum {s d s'} (h : Read.datum (fuel + 1) s = .ok (d, s')) (ht : TokLoc s) (hc : CurOK s) :
+    TokLoc s' ∧ d.HL := by
+  rw [Read.datum] at h
+  simp only at h
+  split at h
+  · cases h
+  · rename_i t hcur
+    obtain ⟨htl, hsl⟩ := hc t hcur
+    split at h
+    · exact h_listOrPair ih h ht hsl
+    · cases hl : repeatDatum fuel s [] with
+      | error e => simp [hl, bind, Except.bind] at h
+      | ok r =>
+        obtain ⟨xs, s1⟩ := r
+        simp only [hl, bind, Except.bind, pure, Except.pure, Except.ok.injEq, Prod.mk.injEq] at h
+        obtain ⟨rfl, rfl⟩ := h
+        have := ih.rep _ _ _ _ hl ht (by simp)
+        exact ⟨this.1, hl_vec hsl this.2.1⟩
+    · cases h; exact ⟨ht, by simpa [Datum.HL] using hsl⟩
+    · cases h; exact ⟨ht, by simpa [Datum.HL] using hsl⟩
+    · cases ha : advance s with
+      | error e => simp [ha, bind, Except.bind] at h
+      | ok s1 =>
+        simp only [ha, bind, Except.bind] at h
+        have h1 := advance_hl ha ht
+        exact ih.quoted _ _ _ h h1.1 h1.2
+    · cases h
+
+theorem h_rep {s acc xs s'} (h : repeatDatum (fuel + 1) s acc = .ok (xs, s')) (ht : TokLoc s)
+    (hacc : ∀ x ∈ acc, x.HL) : TokLoc s' ∧ (∀ x ∈ xs, x.HL) ∧ s'.loc ≠ none := by
+  rw [repeatDatum] at h
+  cases hp : peek s with
+  | error e => simp [hp, bind, Except.bind] at h
+  | ok o =>
+    simp only [hp, bind, Except.bind] at h
+    split at h
+    · cases h
+    · rename_i t
+      have hpk : ∃ rest, s.toks = t :: rest := by
+        unfold peek at hp
+        split at hp
+        · rename_i t' rest hk; cases hp; exact ⟨rest, hk⟩
+        · split at hp <;> cases hp
+      obtain ⟨rest, hk⟩ := hpk
+      have hadv : ∀ s1, advance s = .ok s1 → s1.loc ≠ none := by
+        intro s1 ha
+        unfold advance at ha
+        simp only [hk] at ha
+        cases ha
+        exact ht t (by simp [hk])
+      split at h
+      · cases ha : advance s with
+        | error e => simp [ha] at h
+        | ok s1 =>
+          simp only [ha, pure, Except.pure, Except.ok.injEq, Prod.mk.injEq] at h
+          obtain ⟨rfl, rfl⟩ := h
+          exact ⟨(advance_hl ha ht).1, fun x hx => hacc x (List.mem_reverse.1 hx), hadv _ ha⟩
+      · cases ha : advance s with
+        | error e => simp [ha] at h
+        | ok s1 =>
+          simp only [ha] at h
+          cases hd : Read.datum fuel s1 with
+          | error e => simp [hd] at h
+          | ok r =>
+            obtain ⟨d, s2⟩ := r
+            simp only [hd] at h
+            have h1 := advance_hl ha ht
+            have h2 := ih.datum _ _ _ hd h1.1 h1.2
+            refine ih.rep _ _ _ _ h h2.1 ?_
+            intro x hx
+            rcases List.mem_cons.1 hx with rfl | hx
+            · exact h2.2
+            · exact hacc x hx
+
+theorem h_loop {s listLoc acc dot d s'} (h : listLoop (fuel + 1) s listLoc acc dot = .ok (d, s'))
+    (ht : TokLoc s) (hl : listLoc ≠ none) (hacc : acc.TL) : TokLoc s' ∧ d.HL := by
+  rw [listLoop] at h
+  cases ha : advanceUnwrap s with
+  | error e => simp [ha, bind, Except.bind] at h
+  | ok r =>
+    obtain ⟨t, s1⟩ := r
+    simp only [ha, bind, Except.bind] at h
+    obtain ⟨ht1, hc1, -⟩ := advanceUnwrap_hl ha ht
+    split at h
+    · split at h
+      · cases h
+      · exact ih.loop _ _ _ _ _ _ h ht1 hl hacc
+    · simp only [pure, Except.pure, Except.ok.injEq, Prod.mk.injEq] at h
+      obtain ⟨rfl, rfl⟩ := h
+      exact ⟨ht1, tl_withLoc hacc hl⟩
+    · cases hcd : currentDatum fuel s1 with
+      | error e => simp [hcd] at h
+      | ok r =>
+        obtain ⟨od, s2⟩ := r
+        simp only [hcd] at h
+        have h2 := ih.cur _ _ _ hcd ht1 hc1
+        split at h
+        · cases h
+        · rename_i element
+          have hel := h2.2 element rfl
+          split at h
+          · rename_i ca cd cl
+            split at h
+            · cases ha2 : advanceUnwrap s2 with
+              | error e => simp [ha2] at h
+              | ok r2 =>
+                obtain ⟨t2, s3⟩ := r2
+                simp only [ha2] at h
+                obtain ⟨ht3, -, -⟩ := advanceUnwrap_hl ha2 h2.1
+                split at h
+                · simp only [pure, Except.pure, Except.ok.injEq, Prod.mk.injEq] at h
+                  obtain ⟨rfl, rfl⟩ := h
+                  exact ⟨ht3, tl_withLoc (tl_setTail hacc hel) hl⟩
+                · cases h
+            · exact ih.loop _ _ _ _ _ _ h h2.1 hl (tl_snoc hacc hel)
+          · exact ih.loop _ _ _ _ _ _ h h2.1 hl (by simp [Datum.TL, hel])
+
+end succ
+
+theorem hAt : ∀ fuel, HAt fuel
+  | 0 => hAt_zero
+  | fuel + 1 =>
+    have ih := hAt fuel
+    ⟨fun _ _ _ => h_cur ih, fun _ _ _ _ _ _ => h_loop ih, fun _ _ _ _ => h_rep ih,
+     fun _ _ _ => h_datum ih, fun _ _ _ => h_quoted ih⟩
+
+/-- `Parser::parse` on a stream of located tokens delivers a head-located datum -/
+theorem nextDatum_hl {s s' : PState} {d : Datum} (h : nextDatum s = .ok (some d, s')) (ht : TokLoc s) :
+    d.HL ∧ TokLoc s' := by
+  unfold nextDatum at h
+  cases ha : advance s with
+  | error e => simp [ha, bind, Except.bind] at h
+  | ok s1 =>
+    simp only [ha, bind, Except.bind] at h
+    have h1 := advance_hl ha ht
+    have := (hAt _).cur _ _ _ h h1.1 h1.2
+    exact ⟨this.2 d rfl, this.1⟩
+
+/-- every token the lexer delivers has a position -/
+theorem allAux_tokLoc : ∀ (fuel : Nat) (cs : List Char) (p : Lex.Pos) (acc : List LToken),
+    (∀ t ∈ acc, t.loc ≠ none) → ∀ t ∈ (Lex.allAux fuel cs p acc).1, t.loc ≠ none
+  | 0, cs, p, acc, ha => by simpa [Lex.allAux] using ha
+  | fuel + 1, cs, p, acc, ha => by
+    rw [Lex.allAux]
+    split
+    · simpa using ha
+    · simpa using ha
+    · refine allAux_tokLoc fuel _ _ _ ?_
+      intro t ht
+      rcases List.mem_cons.1 ht with rfl | ht
+      · simp
+      · exact ha t ht
+
+theorem ofText_tokLoc (cs : List Char) : TokLoc (Read.ofText cs) := by
+  intro t ht
+  exact allAux_tokLoc _ cs (1, 1) [] (by simp) t (by simpa [Read.ofText, Lex.all] using ht)
+
+/-! ### a run-time error always has a position -/
+
+open Interp InterpLoc
+
+/-- `eval_ast` on a statement that has a position reports a position -/
+theorem evalAst_located {fuel : Nat} {st st' : State} {s : Statement} {k : Err} {loc : Loc}
+    (h : evalAst fuel st s = (.error (k, loc), st')) (hs : s.loc ≠ none) : loc ≠ none := by
+  have i := evalAst_in (T := st.rlocs ++ s.rlocs) factoryOfText_clean h
+    (stIn_iff.2 (List.subset_append_left _ _)) (List.subset_append_right _ _)
+  obtain ⟨loc0, -, rfl⟩ := i.2 k loc rfl
+  cases loc0 with
+  | none => cases hsl : s.loc with
+    | none => exact absurd hsl hs
+    | some p => simp
+  | some l => simp
+
+/-- an error without a position was raised while reading or transforming a form (a syntax error),
+never while evaluating one -/
+def SyntaxStage (k : Err) : Prop :=
+  (∃ s : PState, nextDatum s = .error (k, none)) ∨
+  (∃ d env env', toStatement (xformFuel d) d env = (.error (k, none), env'))
+
+theorem evalText_go_located (fuel : Nat) : ∀ (n : Nat) (s : PState) (st : State) (last : Option Value)
+    (k : Err) (st' : State), TokLoc s → evalText.go fuel n s st last = (.error (k, none), st') →
+    k = .fuel ∨ SyntaxStage k
+  | 0, s, st, last, k, st', _, h => by
+    rw [evalText.go] at h; cases h; exact Or.inl rfl
+  | n + 1, s, st, last, k, st', ht, h => by
+    rw [evalText.go] at h
+    split at h
+    · rename_i e he
+      cases h
+      exact Or.inr (Or.inl ⟨s, he⟩)
+    · cases h
+    · rename_i d s' hd
+      obtain ⟨hdl, ht'⟩ := nextDatum_hl hd ht
+      split at h
+      · rename_i e syn hx
+        cases h
+        exact Or.inr (Or.inr ⟨d, _, _, hx⟩)
+      · rename_i stmt syn hx
+        have hsl : stmt.loc ≠ none := stmt_loc_some _ d hdl st.syn stmt (by rw [hx])
+        split at h
+        · rename_i e st1 hev
+          cases h
+          exact absurd rfl (evalAst_located hev hsl)
+        · exact evalText_go_located fuel n s' _ _ k st' ht' h
+
+end HLoc
+
 end Ruschm
